@@ -250,6 +250,99 @@ example : [nvB, nvA] ∉ haplotypes nvTx [nvB, nvA] := by
   rw [mem_haplotypes_iff nvTx [nvB, nvA] [nvB, nvA] (by decide)]; decide
 end NonVacuity
 
+/-! ## the pruned enumerator the compiled oracle runs
+
+`haplotypes` enumerates all `2^n` sub-collections of the pool before it filters — the clear
+statement, and exponential whatever the records look like.  `Spec/CallVariant.lean` defines
+`haplotypesFast`, which puts a record only in front of the sub-collections it is compatible
+with (`prunedSublists`; compatibility of an earlier with a later record = `compatOrd`, the
+test the stable insertion sort turns into "ends before the next one starts").  The three
+theorems below hold for ALL lists — no well-formedness of the records is assumed: ties in
+`start`, records with `stop < start`, duplicates are all covered.  `haplotypes_eq_pruned` is
+registered as a `@[csimp]` equation (`Spec.haplotypes_eq_fast`), so the native driver
+evaluates the pruned enumerator wherever `haplotypes` occurs, while every theorem of this
+file keeps talking about the definition.  (`csimp` is an attribute on a kernel-checked
+equation, not an axiom; trusted = Lean's compiler replacing equals by equals.) -/
+
+/-- (a) the adjacent-pair test on the SORTED collection is pairwise compatibility of the
+UNSORTED one: `s` put in ascending order (stable insertion sort) is strictly separated iff
+every record of `s` is `compatOrd` with every later record of `s`.  For every list. -/
+theorem separated_sorted_iff_pairwise (s : List Var) :
+    separated (sortByStart s) = pairwiseOk s :=
+  separated_sort_eq_pairwiseOk s
+
+/-- (b) the pruned enumerator returns exactly the pairwise-compatible sub-collections, in the
+order `sublists` lists them.  For every pool. -/
+theorem pruned_is_filter (p : List Var) :
+    (sublists p).filter pairwiseOk = prunedSublists p :=
+  filter_sublists_eq_pruned p
+
+/-- (c) the definition and the pruned enumerator are the same list (same members, same
+order, same multiplicities), for every transcript and every record list. -/
+theorem haplotypes_eq_pruned (t : TxIn) (vs : List Var) :
+    haplotypes t vs = haplotypesFast t vs :=
+  haplotypes_eq_haplotypesFast t vs
+
+/-- hence every characterisation of the definition's combinations is one of the pruned
+enumerator's: non-empty, strictly separated lists of pool records -/
+theorem mem_haplotypesFast_iff (t : TxIn) (vs h : List Var)
+    (hpos : ∀ v ∈ recordPool t vs, v.start ≤ v.stop) :
+    h ∈ haplotypesFast t vs ↔ h ≠ [] ∧ separated h = true ∧ ∀ v ∈ h, v ∈ recordPool t vs := by
+  rw [← haplotypes_eq_pruned]
+  exact mem_haplotypes_iff t vs h hpos
+
+/-! non-vacuity: a pool with a tie in `start` (`pvA`, `pvB`), overlapping records (`pvB`/`pvC`),
+adjacent records (`pvC`/`pvD`: `stop = start` is NOT separated), a record with `stop < start`
+(`pvE`) and a duplicate (`pvA` twice) -/
+section PrunedNonVacuity
+/-- example record `[5, 6)` -/
+def pvA : Var := { start := 5, stop := 6, ref := ['A'], alt := ['C'], cls := .snv, ids := [0] }
+/-- example record `[5, 8)`: same start as `pvA` -/
+def pvB : Var := { start := 5, stop := 8, ref := "ACG".toList, alt := ['A'], cls := .indel, ids := [1] }
+/-- example record `[7, 9)`: overlaps `pvB`, separated from `pvA` -/
+def pvC : Var := { start := 7, stop := 9, ref := "GT".toList, alt := ['G'], cls := .indel, ids := [2] }
+/-- example record `[9, 10)`: adjacent to `pvC` -/
+def pvD : Var := { start := 9, stop := 10, ref := ['T'], alt := ['G'], cls := .snv, ids := [3] }
+/-- ill-formed example record: `stop < start` -/
+def pvE : Var := { start := 12, stop := 4, ref := ['T'], alt := ['G'], cls := .snv, ids := [4] }
+/-- ill-formed example record with the start of `pvA`: `stop < start` -/
+def pvF : Var := { start := 5, stop := 3, ref := ['T'], alt := ['G'], cls := .snv, ids := [5] }
+
+/-- 128 sub-collections, 28 of them pairwise compatible; (b) on this pool -/
+example : (sublists [pvD, pvA, pvE, pvC, pvB, pvA, pvF]).length = 128 ∧
+    (prunedSublists [pvD, pvA, pvE, pvC, pvB, pvA, pvF]).length = 28 ∧
+    (sublists [pvD, pvA, pvE, pvC, pvB, pvA, pvF]).filter pairwiseOk =
+      prunedSublists [pvD, pvA, pvE, pvC, pvB, pvA, pvF] := by decide +kernel
+
+/-- (a) on both sides of the equation: a compatible and an incompatible collection; with a tie
+in `start` the ORDER in the collection decides (the sort is stable): `[pvF, pvA]` sorts to
+`[pvF, pvA]` (3 < 5: separated), `[pvA, pvF]` to `[pvA, pvF]` (6 < 5 fails); the ill-formed `pvE`
+(`stop` 4 < `start` 12) sorts last and is compatible with everything that ends before 12 -/
+example : separated (sortByStart [pvD, pvA]) = true ∧ pairwiseOk [pvD, pvA] = true ∧
+    separated (sortByStart [pvC, pvB]) = false ∧ pairwiseOk [pvC, pvB] = false ∧
+    separated (sortByStart [pvD, pvC]) = false ∧ pairwiseOk [pvD, pvC] = false ∧
+    separated (sortByStart [pvF, pvA]) = true ∧ pairwiseOk [pvF, pvA] = true ∧
+    separated (sortByStart [pvA, pvF]) = false ∧ pairwiseOk [pvA, pvF] = false ∧
+    separated (sortByStart [pvA, pvA]) = false ∧ pairwiseOk [pvA, pvA] = false ∧
+    separated (sortByStart [pvE, pvA, pvD]) = true ∧ pairwiseOk [pvE, pvA, pvD] = true := by decide
+
+/-- example SNV `[10, 11)`: adjacent to the SNV `pvD`, the two merge into one pool record -/
+def pvG : Var := { start := 10, stop := 11, ref := ['A'], alt := ['C'], cls := .snv, ids := [6] }
+/-- example transcript for the pruned enumerator -/
+def pvTx : TxIn :=
+  { seq := "ATGGCACGTTAAACCCTAG".toList, coding := true, orfStart := 0, orfEnd := 16,
+    startNF := false, endNF := false, sec := [] }
+/-- (c) on a transcript whose pool has a tie, overlaps and a merged pair (`pvC`, `pvD` are
+adjacent but of different classes; the SNVs `pvD`, `pvG` are adjacent and merge): 7 pool
+records, 128 sub-collections, 31 combinations -/
+example : (recordPool pvTx [pvD, pvA, pvC, pvB, pvG, pvE]).length = 7 ∧
+    (haplotypes pvTx [pvD, pvA, pvC, pvB, pvG, pvE]).length = 31 ∧
+    [pvA, pvC] ∈ haplotypesFast pvTx [pvD, pvA, pvC, pvB, pvG, pvE] ∧
+    [pvB, pvC] ∉ haplotypesFast pvTx [pvD, pvA, pvC, pvB, pvG, pvE] ∧
+    haplotypes pvTx [pvD, pvA, pvC, pvB, pvG, pvE] =
+      haplotypesFast pvTx [pvD, pvA, pvC, pvB, pvG, pvE] := by decide +kernel
+end PrunedNonVacuity
+
 /-! ## Layer G — the right-hand sides of the checkpoints are images of one another
 
 CP1/CP2 compare the dumped graph with `tvgLang`, CP3/CP4 with `protLang`.  By unfolding:
